@@ -54,10 +54,12 @@ class DelayLaw(Unit):
                  "pulsarbat.transforms.dedispersion:DispersionMeasure.sample_delay")
     witnesses = 1
 
-    def __init__(self, uf, ug, uh, usr, arr=False):
-        self.uf, self.ug, self.uh, self.usr, self.arr = uf, ug, uh, usr, arr
-        self.name = f"law-{uf}-{ug}-{uh}-{usr}{'-arr' if arr else ''}"
-        self.bounds = {"units(f,g,h,sample_rate)": [uf, ug, uh, usr], "array_f": arr}
+    DMU = {"pc/cm3": (u.pc / u.cm**3, Fraction(1)), "pc/m3": (u.pc / u.m**3, Fraction(1, 10**6)), "kpc/cm3": (u.kpc / u.cm**3, Fraction(1000))}
+
+    def __init__(self, uf, ug, uh, usr, arr=False, dmu="pc/cm3"):
+        self.uf, self.ug, self.uh, self.usr, self.arr, self.dmu = uf, ug, uh, usr, arr, dmu
+        self.name = f"law-{uf}-{ug}-{uh}-{usr}{'-arr' if arr else ''}{'' if dmu == 'pc/cm3' else '-dm-' + dmu.replace('/', '_')}"
+        self.bounds = {"units(f,g,h,sample_rate)": [uf, ug, uh, usr], "array_f": arr, "DM_unit": dmu}
 
     def build(self, S):
         dm = S.real("dm")
@@ -76,10 +78,10 @@ class DelayLaw(Unit):
         S.assume(sr > Fraction(1, 1000))
         S.assume(sr < 10**6)
         if S.symbolic:
-            DM = pb.DM(np.array(dm, dtype=object), dtype=object)
+            DM = pb.DM(np.array(dm, dtype=object), self.DMU[self.dmu][0], dtype=object)
             fq = S.quantity(SymND(np.array([v["f"], f2], dtype=object)), UNITS[self.uf]) if self.arr else S.quantity(v["f"], UNITS[self.uf])
         else:
-            DM = pb.DM(dm)
+            DM = pb.DM(dm, self.DMU[self.dmu][0])
             fq = np.array([v["f"], f2]) * UNITS[self.uf] if self.arr else v["f"] * UNITS[self.uf]
         return {"DM": DM, "dm": dm, "f": fq, "g": S.quantity(v["g"], UNITS[self.ug]), "h": S.quantity(v["h"], UNITS[self.uh]),
                 "sr": S.quantity(sr, UNITS[self.usr]), "v": v, "f2": f2, "srv": sr}
@@ -92,7 +94,7 @@ class DelayLaw(Unit):
     def spec(self, S, a, out):
         if isinstance(out, Raised):
             return [("no-exception", z3.BoolVal(True))]
-        dm = rterm(a["dm"])
+        dm = rterm(a["dm"]) * RV(self.DMU[self.dmu][1])           # in pc/cm^3
         f = rterm(a["v"]["f"]) * RV(SCALE[self.uf])
         f2 = rterm(a["f2"]) * RV(SCALE[self.uf])
         g = rterm(a["v"]["g"]) * RV(SCALE[self.ug])
@@ -327,7 +329,8 @@ class Incoherent(Unit):
 
 def units(tier):
     us = [DelayLaw("MHz", "GHz", "MHz", "kHz"), DelayLaw("Hz", "MHz", "GHz", "MHz", arr=True), DelayLaw("GHz", "GHz", "Hz", "Hz"),
-          DelayLaw("kHz", "Hz", "kHz", "GHz", arr=True)]
+          DelayLaw("kHz", "Hz", "kHz", "GHz", arr=True), DelayLaw("MHz", "MHz", "GHz", "kHz", dmu="pc/m3"),
+          DelayLaw("GHz", "MHz", "MHz", "Hz", arr=True, dmu="kpc/cm3")]
     if tier != "quick":
         us += [DelayLaw(a, b, c, d, arr=(i % 2 == 0)) for i, (a, b, c, d) in enumerate(itertools.product(("Hz", "MHz", "GHz"), repeat=4))
                if (a, b, c, d) not in (("GHz", "GHz", "Hz", "Hz"),)][::5]
